@@ -2,7 +2,7 @@
     Only theorem statements closed by [exact]; proofs are in Proofs/C05Shachain.v and
     Proofs/C05Revoke.v; models in Model/Shachain.v and Model/RevokeLog.v. *)
 Require Import LdkV.Prim.U64 LdkV.Model.Shachain LdkV.Model.RevokeLog
-  LdkV.Proofs.C05Shachain LdkV.Proofs.C05Revoke LdkV.Crypto.Sha256.
+  LdkV.Proofs.C05Shachain LdkV.Proofs.C05Revoke LdkV.Crypto.Sha256 LdkV.Gen.C05Pins.
 Open Scope Z_scope.
 
 (** ** The compact store of received revocation secrets *)
@@ -61,17 +61,18 @@ Proof. exact forged_after_feed. Qed.
     signer log of the real implementation) *)
 Theorem C05_policy_holds : forall secret point pub point_eqb,
   (forall p, point_eqb p p = true) -> (forall p q, point_eqb p q = true -> p = q) ->
-  forall p0 p1 ops, exists g,
-    chk_all secret point pub point_eqb (pol_init point) (machine_log secret point pub point_eqb p0 p1 ops) = Some g.
+  forall batch p0 ops, exists g,
+    chk_all secret point pub point_eqb (pol_init point) (machine_log secret point pub point_eqb batch p0 ops) = Some g.
 Proof. exact policy_holds. Qed.
 
-(** a secret is released only after the successor commitment was validated, never after a holder
-    commitment was signed for broadcast, and no released number is signed afterwards *)
+(** a secret is released only after the successor commitment was validated FULLY SIGNED (as many
+    counterparty HTLC signatures as non-dust HTLCs, all valid), never after a holder commitment was
+    signed for broadcast, and no released number is signed afterwards *)
 Theorem C05_release_after_newer : forall secret point pub point_eqb,
   (forall p, point_eqb p p = true) -> (forall p q, point_eqb p q = true -> p = q) ->
-  forall p0 p1 ops pre k post,
-  machine_log secret point pub point_eqb p0 p1 ops = pre ++ Release k :: post ->
-  In (ValidateHolder (k - 1)) pre /\
+  forall batch p0 ops pre k post,
+  machine_log secret point pub point_eqb batch p0 ops = pre ++ Release k :: post ->
+  (exists n, In (ValidateHolder (k - 1) n n) pre) /\
   (forall k', ~ In (SignHolder k') pre) /\
   (forall k', In (SignHolder k') post -> k' < k).
 Proof. exact run_release_after_newer. Qed.
@@ -80,8 +81,8 @@ Proof. exact run_release_after_newer. Qed.
     does nothing but sign that again *)
 Theorem C05_sign_holder_unrevoked : forall secret point pub point_eqb,
   (forall p, point_eqb p p = true) -> (forall p q, point_eqb p q = true -> p = q) ->
-  forall p0 p1 ops pre k post,
-  machine_log secret point pub point_eqb p0 p1 ops = pre ++ SignHolder k :: post ->
+  forall batch p0 ops pre k post,
+  machine_log secret point pub point_eqb batch p0 ops = pre ++ SignHolder k :: post ->
   (forall j, In (Release j) pre -> k < j) /\
   (forall e, In e post -> exists k', e = SignHolder k').
 Proof. exact run_sign_holder_unrevoked. Qed.
@@ -90,8 +91,8 @@ Proof. exact run_sign_holder_unrevoked. Qed.
     its secret stored: at most one earlier counterparty commitment is unrevoked *)
 Theorem C05_single_outstanding : forall secret point pub point_eqb,
   (forall p, point_eqb p p = true) -> (forall p q, point_eqb p q = true -> p = q) ->
-  forall p0 p1 ops pre k post,
-  machine_log secret point pub point_eqb p0 p1 ops = pre ++ SignCounterparty k :: post ->
+  forall batch p0 ops pre k post,
+  machine_log secret point pub point_eqb batch p0 ops = pre ++ SignCounterparty k :: post ->
   forall j, k + 2 <= j <= INITIAL -> exists sec, In (StoreSecret j sec) pre.
 Proof. exact run_single_outstanding. Qed.
 
@@ -99,10 +100,10 @@ Proof. exact run_single_outstanding. Qed.
     direction: numbers advance by exactly one per update, in both directions *)
 Theorem C05_step_by_one : forall secret point pub point_eqb,
   (forall p, point_eqb p p = true) -> (forall p q, point_eqb p q = true -> p = q) ->
-  forall p0 p1 ops pre e post,
-  machine_log secret point pub point_eqb p0 p1 ops = pre ++ e :: post ->
+  forall batch p0 ops pre e post,
+  machine_log secret point pub point_eqb batch p0 ops = pre ++ e :: post ->
   match e with
-  | ValidateHolder k => k = INITIAL - 1 - count is_vh pre
+  | ValidateHolder k nsig nnd => k = INITIAL - 1 - count is_vh pre /\ nsig = nnd
   | Release k => k = INITIAL + 1 - count is_vh pre
   | SignHolder k => k = INITIAL - count is_vh pre
   | ValidateRevocation k => k = INITIAL - count is_vr pre /\ count is_store pre = count is_vr pre
@@ -114,9 +115,9 @@ Proof. exact run_step_by_one. Qed.
 
 Theorem C05_counters : forall secret point pub point_eqb,
   (forall p, point_eqb p p = true) -> (forall p q, point_eqb p q = true -> p = q) ->
-  forall p0 p1 ops,
-  let s := fst (run secret point pub point_eqb (init point p0 p1) (init_log secret point p0 p1) ops) in
-  let log := machine_log secret point pub point_eqb p0 p1 ops in
+  forall batch p0 ops,
+  let s := fst (run secret point pub point_eqb (init secret point batch p0) (init_log secret point p0) ops) in
+  let log := machine_log secret point pub point_eqb batch p0 ops in
   holder_next s = INITIAL - 1 - count is_vh log /\
   (closed s = false -> cp_next s = INITIAL - 1 - count is_store log).
 Proof. exact run_counters. Qed.
@@ -125,16 +126,40 @@ Proof. exact run_counters. Qed.
     point is the one the peer announced for exactly that commitment number *)
 Theorem C05_secret_checked : forall secret point pub point_eqb,
   (forall p, point_eqb p p = true) -> (forall p q, point_eqb p q = true -> p = q) ->
-  forall p0 p1 ops pre k sec post,
-  machine_log secret point pub point_eqb p0 p1 ops = pre ++ StoreSecret k sec :: post ->
+  forall batch p0 ops pre k sec post,
+  machine_log secret point pub point_eqb batch p0 ops = pre ++ StoreSecret k sec :: post ->
   In (Announce k (pub sec)) pre /\ In (ValidateRevocation k) pre.
 Proof. exact run_secret_checked. Qed.
+
+(** the point of a commitment number is announced at most once over the whole life of the channel
+    (open/accept, channel_ready in every funding-flag state, revoke_and_ack): it is never replaced;
+    together with [C05_secret_checked], every stored secret matches the point FIRST announced *)
+Theorem C05_announce_once : forall secret point pub point_eqb,
+  (forall p, point_eqb p p = true) -> (forall p q, point_eqb p q = true -> p = q) ->
+  forall batch p0 ops pre k p post,
+  machine_log secret point pub point_eqb batch p0 ops = pre ++ Announce k p :: post ->
+  forall p', ~ In (Announce k p') pre.
+Proof. exact run_announce_once. Qed.
+
+(** a re-sent channel_ready, in ANY state in which the peer's channel_ready was already taken into
+    account -- ChannelReady, or AwaitingChannelReady with THEIR_CHANNEL_READY and without
+    OUR_CHANNEL_READY, WITH OR WITHOUT WAITING_FOR_BATCH -- never touches the stored points and
+    announces nothing; it is a no-op or closes the channel *)
+Theorem C05_channel_ready_points_immutable : forall secret point pub point_eqb (s : st secret point) p,
+  closed s = false ->
+  (chan_ready (hsk s) = true \/ (their_ready (hsk s) = true /\ our_ready (hsk s) = false)) ->
+  let s' := fst (step secret point pub point_eqb s (ORecvChannelReady p)) in
+  let evs := snd (step secret point pub point_eqb s (ORecvChannelReady p)) in
+  cp_cur_point s' = cp_cur_point s /\ cp_next_point s' = cp_next_point s /\ hsk s' = hsk s /\
+  (forall k q, ~ In (Announce k q) evs) /\
+  (closed s' = false -> s' = s /\ evs = []).
+Proof. exact channel_ready_points_immutable. Qed.
 
 (** channel_reestablish, in ANY disconnected state: the channel resumes only if the peer's two
     numbers are ours or ours-1 (with a matching proof secret), resuming changes no number, and the
     only things done are retransmissions of the last revoke_and_ack / commitment_signed *)
-Theorem C05_reestablish_adjacent_only : forall secret point pub point_eqb (s : st point) nl nr sc,
-  closed s = false -> disconnected s = true ->
+Theorem C05_reestablish_adjacent_only : forall secret point pub point_eqb (s : st secret point) nl nr sc,
+  closed s = false -> disconnected s = true -> chan_ready (hsk s) = true ->
   let s' := fst (step secret point pub point_eqb s (ORecvReest nl nr sc)) in
   let evs := snd (step secret point pub point_eqb s (ORecvReest nl nr sc)) in
   let our := INITIAL - (holder_next s + 1) in
@@ -147,6 +172,14 @@ Theorem C05_reestablish_adjacent_only : forall secret point pub point_eqb (s : s
                          (e = SignCounterparty (cp_next s) /\ nl = ncp - 1)).
 Proof. exact reest_resumes_only_adjacent. Qed.
 
+(** the two source comparisons behind [ORecvCS]'s signature-count test and [recv_channel_ready]'s
+    re-sent-message test, re-read from channel.rs on every run, are the ones the machine transliterates *)
+Theorem C05_source_pins :
+  htlc_sig_count_test = "msg.htlc_signatures.len() != commitment_data.tx.nondust_htlcs().len()"%string /\
+  channel_ready_resend_test =
+    "flags.clone().clear(AwaitingChannelReadyFlags::WAITING_FOR_BATCH) == AwaitingChannelReadyFlags::THEIR_CHANNEL_READY"%string.
+Proof. exact source_pins. Qed.
+
 (** ** A statement that does NOT hold (known finding C05-F1; see design/C05.md)
 
     "The node signs a counterparty commitment only if it records it as outstanding" is refuted by a
@@ -157,7 +190,7 @@ Proof. exact reest_resumes_only_adjacent. Qed.
     commitment and issues no ChannelMonitorUpdate for it. *)
 Theorem C05_unrecorded_counterparty_commitment_refuted :
   exists (ops : list (op Z Z)) (nl nr : Z),
-    let '(s, log) := run Z Z (fun x => x) Z.eqb (init Z 100 101) (init_log Z Z 100 101) ops in
+    let '(s, log) := run Z Z (fun x => x) Z.eqb (init Z Z false 100) (init_log Z Z 100) ops in
     let '(s', evs) := step Z Z (fun x => x) Z.eqb s (ORecvReest nl nr SecMatch) in
     closed s = false /\ awaiting_rr s = false /\ disconnected s = true /\
     ~ In (SignCounterparty (cp_next s)) log /\
@@ -188,23 +221,34 @@ Example C05_shachain_refuses_wrong_secret :
   end = None.
 Proof. vm_compute. reflexivity. Qed.
 
-(** a run with two full update rounds in each direction, an asynchronous monitor completion, a
-    disconnection with retransmission of both the last revoke_and_ack and commitment_signed, a
-    forged revoke_and_ack (closing the channel) and a re-sign: its log (secrets and points are
-    integers, [pub] the identity). *)
+(** runs from the batch-funded AwaitingChannelReady state: an early channel_ready followed by a forged
+    different one (channel closed); and a full life: handshake, two update rounds each way, an
+    asynchronous monitor completion, a disconnection with retransmission of both messages, a
+    commitment_signed lacking an HTLC signature (closing the channel), a re-sign. Secrets and points
+    are integers, [pub] the identity. *)
 Example C05_run_nontrivial :
-  machine_log Z Z (fun x => x) Z.eqb 100 101
-    [OCommit true; ORecvRAA 100 102 true false true; ORecvCS true true true;
+  machine_log Z Z (fun x => x) Z.eqb true 100
+    [ORecvChannelReady 101;        (* early channel_ready of a 0-conf peer while WAITING_FOR_BATCH *)
+     ORecvChannelReady 555;        (* a re-sent one with a different point would close: shown separately *)
+     OResign] =
+  [Announce INITIAL 100; Announce (INITIAL - 1) 101; SignHolder INITIAL; SignHolder INITIAL].
+Proof. vm_compute. reflexivity. Qed.
+
+Example C05_run_nontrivial_2 :
+  machine_log Z Z (fun x => x) Z.eqb true 100
+    [ORecvChannelReady 101; ORecvChannelReady 101; OBatchReady; OOurChannelReady;
+     OCommit true; ORecvRAA 100 102 true false true; ORecvCS true 2 2 true true true;
      ORecvRAA 101 103 true false false; OMonitorDone;
-     ORecvCS true true false; ODisconnect; OMonitorDone;
+     ORecvCS true 0 0 true true false; ODisconnect; OMonitorDone;
      ORecvReest 3 1 SecMatch;
-     ORecvRAA 999 104 true false true; OResign] =
+     ORecvCS true 1 2 true false true;   (* one HTLC signature missing: refused, channel closed *)
+     OResign] =
   [Announce INITIAL 100; Announce (INITIAL - 1) 101;
    SignCounterparty (INITIAL - 1);
    ValidateRevocation INITIAL; StoreSecret INITIAL 100; Announce (INITIAL - 2) 102;
-   ValidateHolder (INITIAL - 1); Release INITIAL; SignCounterparty (INITIAL - 2);
+   ValidateHolder (INITIAL - 1) 2 2; Release INITIAL; SignCounterparty (INITIAL - 2);
    ValidateRevocation (INITIAL - 1); StoreSecret (INITIAL - 1) 101; Announce (INITIAL - 3) 103;
-   ValidateHolder (INITIAL - 2);
+   ValidateHolder (INITIAL - 2) 0 0;
    Release (INITIAL - 1); SignCounterparty (INITIAL - 3);
    SignHolder (INITIAL - 2); SignHolder (INITIAL - 2)].
 Proof. vm_compute. reflexivity. Qed.
